@@ -849,6 +849,13 @@ func c16(r *core.Report) {
 	r.Rule("C16-PARSE-TOTAL", "the identity part of an address reaches base64's Decode only when it has exactly an id's encoded length (any other text is an error, not a panic)", 1)
 	ruleBase64DecodeFits(r, "C16-PARSE-TOTAL", "identity text of the wrong length is decoded: ParseAddr panics (over-long) or accepts a truncated id (short) instead of failing cleanly")
 
+	// ---- C16-SCHEME-PARSER: the module is built with go 1.21 semantics (go.mod): the variables of a for/range
+	// statement are ONE variable for the whole loop. A function literal created in the loop body that captures
+	// them and outlives the iteration (stored in the schema's parser table) sees the values of the LAST
+	// iteration: every scheme's text is then handed to one transport's parser.
+	r.Rule("C16-SCHEME-PARSER", "no function literal that outlives its loop iteration captures the loop's own variables (per-loop under the module's go version)", 1)
+	ruleLoopVarCapture(r, "C16-SCHEME-PARSER", "s/multiswarm")
+
 	r.Rule("C16-TEXT-OWNED", "MarshalText does not return bytes backed by a pooled or package-level buffer", 6)
 	for _, t := range typesTab {
 		mf := p.Func(t.rel, t.marshal)
@@ -1025,6 +1032,63 @@ func c16(r *core.Report) {
 		w, rd, err := compute(t, l.w, l.rd)
 		if err == nil {
 			check("multiswarm.Addr[quicswarm.Addr[udpswarm.Addr]]", "-", w, rd)
+		}
+	}
+}
+
+// ruleLoopVarCapture: in the packages named, a MakeClosure inside a loop must not bind a variable cell that is
+// allocated once outside that loop and assigned inside it (a per-loop iteration variable under go < 1.22), unless
+// the literal is only called, synchronously, within the iteration. One obligation per loop that creates closures
+// plus one per package without any.
+func ruleLoopVarCapture(r *core.Report, ruleID string, rels ...string) {
+	p := r.P
+	for _, rel := range rels {
+		n := 0
+		for _, fn := range p.ModFuncs {
+			if fn.Pkg == nil || fn.Pkg.Pkg.Path() != core.ModPath+"/"+rel {
+				continue
+			}
+			for _, in := range core.AllInstrs(fn) {
+				mc, ok := in.(*ssa.MakeClosure)
+				if !ok {
+					continue
+				}
+				// in a loop: the block reaches itself
+				inLoop := core.Reach(fn, mc, nil, nil)[mc]
+				if !inLoop {
+					continue
+				}
+				n++
+				r.Analysed(fn)
+				lit, _ := mc.Fn.(*ssa.Function)
+				c := core.FnName(fn) + " literal " + lit.Name()
+				onlyCalled := true
+				for _, ref := range *mc.Referrers() {
+					call, isCall := ref.(*ssa.Call)
+					if !isCall || call.Call.Value != ssa.Value(mc) {
+						onlyCalled = false
+					}
+				}
+				bad := ""
+				fromMC := core.Reach(fn, mc, nil, nil)
+				for _, b := range mc.Bindings {
+					a, isAlloc := b.(*ssa.Alloc)
+					if !isAlloc || fromMC[a] {
+						continue // allocated per iteration (or not a cell)
+					}
+					// assigned inside the loop?
+					for _, ref := range *a.Referrers() {
+						if st, isSt := ref.(*ssa.Store); isSt && st.Addr == ssa.Value(a) && fromMC[st] {
+							bad = a.Comment
+						}
+					}
+				}
+				r.Check(bad == "" || onlyCalled, ruleID, c, p.Pos(lit.Pos()), "captures no variable that the loop reassigns (or is only called within the iteration)",
+					"the literal captures the loop variable '"+bad+"', which under the module's go version is one variable for the whole loop, and is kept beyond the iteration: every copy sees the last iteration's value (every scheme is parsed by the last transport's parser)")
+			}
+		}
+		if n == 0 {
+			r.OK(ruleID, rel+" no closures created in loops", "-", "no function literal is created inside a loop in this package")
 		}
 	}
 }
